@@ -281,6 +281,15 @@ def compute():
 def other():
     tick.hit("other")
     return ("o", U)
+
+
+F = 0
+
+
+def via_facade():
+    # only reached as ta.outer.via_facade(): re-exported by a NON-accepted module, defined here in an accepted one
+    tick.hit("via_facade")
+    return ("vf", F)
 '''
 _T14_DEEP = '''
 D = 0
@@ -297,6 +306,8 @@ def dp():
     return ("decoy", 1)
 '''
 _T14_OUTER = '''
+from ta.inner.leaf import via_facade
+
 Z = 0
 
 
@@ -334,7 +345,7 @@ def g():
 @dds.data_function("/t14/f")
 def f():
     tick.hit("f")
-    return ("f", ta.inner.leaf.compute(), g(), hp.h(), ta.outer.ext())
+    return ("f", ta.inner.leaf.compute(), g(), hp.h(), ta.outer.ext(), ta.outer.via_facade())
 '''
 _t(
     "T14",
@@ -346,7 +357,7 @@ _t(
      ("ta.outer", {"a": HEAD + _T14_OUTER, "b": HEAD + _T14_OUTER.replace('("z", Z)', '("z2", Z)')}),
      ("tx", {"a": "#\\n"}), ("tx.lib", {"a": HEAD + _T14_XLIB}),
      ("tq.m1", {"a": HEAD + _T14_M1})],
-    leaves=[("ta.inner.leaf", "V", "int", True), ("ta.inner.leaf", "U", "int", True), ("tq2.helpers", "W", "int", True), ("ta.inner.sub.deeper.deepest", "D", "int", True), ("ta.outer", "Z", "int", False)],
+    leaves=[("ta.inner.leaf", "V", "int", True), ("ta.inner.leaf", "U", "int", True), ("ta.inner.leaf", "F", "int", True), ("tq2.helpers", "W", "int", True), ("ta.inner.sub.deeper.deepest", "D", "int", True), ("ta.outer", "Z", "int", False)],
     entry=("tq.m1", "f"),
     kept=["/t14/g", "/t14/f"],
     accepted=("tq2", "ta.inner", "tq"),
